@@ -153,6 +153,9 @@ pub fn check_pair(item: u64, a: f64, p: f64, acc: &mut Acc) {
                 );
                 return;
             }
+            if acc.samples.is_empty() {
+                acc.sample(json!({"a": a, "p": p, "lambda": l, "branch": class, "P(a,lambda)": gamma_pq(a, l).0}));
+            }
             if quantile_ge {
                 let (pp, qq) = gamma_pq(a, l);
                 let err = if p > 0.5 { (qq - (1.0 - p)).abs() } else { (pp - p).abs() };
